@@ -3,6 +3,8 @@ import DeepModel.Props.C17
 #print axioms C17.c17_operation
 #print axioms C17.c17_arguments
 #print axioms C17.c17_value
+#print axioms C17.c17_value_int_examples
+#print axioms C17.c17_big_int_witness
 #print axioms C17.c17_label_value
 #print axioms C17.c17_labels
 #print axioms C17.c17_namespace_default
